@@ -45,7 +45,13 @@ def run(chk: core.Check) -> None:
     from odfdo.utils import xpath_literal
 
     rng = chk.rng
-    chk.classifiers["name_true_false_is_bool"] = lambda case: case.get("name") in ("true", "false") or case.get("other") in ("true", "false") or case.get("lookup") in ("true", "false")
+    # known finding C14-F3, as it shows on the pinned tree: these entry points read the name back through the generic attribute
+    # getter (which decodes "true" / "false" into booleans). Any OTHER entry point that loses an object named "true" / "false"
+    # is not that finding.
+    F3_ENTRIES = {"get_annotation(name=)", "get_bookmark", "get_draw_page(name=)", "get_link(name=)", "get_note(note_id=)", "get_reference_mark_single",
+                  "get_style", "get_user_defined", "get_user_field_decl", "get_variable_decl", "get_variable_set"}
+    chk.classifiers["name_true_false_is_bool"] = lambda case: case.get("entry") in F3_ENTRIES and (
+        case.get("name") in ("true", "false") or case.get("other") in ("true", "false") or case.get("lookup") in ("true", "false"))
     chk.rule = (
         "identifiers: a fixed list of quote / apostrophe / ampersand / bracket / injection-looking names + random strings over a 26-letter alphabet rich in "
         "XPath and XML significant characters; for each entry point two objects with two close but different identifiers, looked up in memory and after "
@@ -122,6 +128,38 @@ def run(chk: core.Check) -> None:
                     chk.fail({"entry": "get_table after reload", "name": nm}, "table not found under its name after save + reload")
         except Exception as e:  # noqa: BLE001
             chk.fail({"entry": "get_table after reload", "name": n1, "exception": repr(e)}, "save + reload + lookup raised")
+        # --- spreadsheet: named ranges (names of letters, digits and underscores: the identifier is made valid first; "true" and
+        #     "false" are valid names), looked up through the table, through the body, and deleted by name
+        import re as _re
+
+        def nr_name(x):
+            y = _re.sub(r"[^0-9A-Za-z_À-ɏ]", "_", x)
+            if not y or not (y[0].isalpha() or y[0] == "_"):
+                y = "n_" + y
+            return y + "_" if _re.fullmatch(r"[A-Za-z]{1,3}[0-9]+", y) else y
+        sdoc = Document("spreadsheet")
+        sbody = sdoc.body
+        sbody.clear()
+        stab = Table("Sheet")
+        stab.set_values([[1, 2], [3, 4]])
+        sbody.append(stab)
+        r1, r2 = nr_name(n1), nr_name(n2)
+        if r1 == r2:
+            r2 = r1 + "x"
+
+        def store_nr(x, k=[0]):
+            k[0] += 1
+            stab.set_named_range(x, (0, 0, k[0] % 2, 1))
+            return x
+        check("get_named_range (table)", r1, r2, store_nr, lambda x: stab.get_named_range(x), lambda o: o.name)
+        check("get_named_range (body)", r1, r2, lambda x: x, lambda x: sbody.get_named_range(x), lambda o: o.name)
+        try:
+            stab.delete_named_range(r1)
+            left = [nr.name for nr in stab.get_named_ranges()]
+            if r1 in left or r2 not in left:
+                chk.fail({"entry": "delete_named_range", "name": r1, "other": r2, "left": left}, "delete_named_range(name) does not delete exactly the named range of that name")
+        except Exception as e:  # noqa: BLE001
+            chk.fail({"entry": "delete_named_range", "name": r1, "exception": repr(e)}, f"delete_named_range raised {type(e).__name__}")
         # --- text document entry points
         doc = Document("text")
         body = doc.body
